@@ -278,6 +278,7 @@ type c20State struct {
 	savedText    []byte         // manifest bytes it produced (real, not canonical)
 	createdWAL   string         // WAL directory of the configuration the database was created with
 	written      map[string]string
+	writtenWAL   map[string]string // WAL directory of the engine each key was written through
 	tampered     bool
 	nSaveOK      int
 	nLoad        int
@@ -286,7 +287,6 @@ type c20State struct {
 	nReject      int
 	nOdd         int
 	usedWALDirs  map[string]bool
-	defaultsUsed bool
 }
 
 func (s *c20State) canon(b []byte) []byte { return bytes.ReplaceAll(b, []byte(s.root), []byte("$R")) }
@@ -413,7 +413,7 @@ func runC20(c *Case, out func(string)) {
 	root := tmpDir("c20-")
 	defer os.RemoveAll(root)
 	s := &c20State{root: root, db: filepath.Join(root, "db"), out: out, oracleOK: true, kf: map[string]bool{},
-		written: map[string]string{}, usedWALDirs: map[string]bool{}}
+		written: map[string]string{}, writtenWAL: map[string]string{}, usedWALDirs: map[string]bool{}}
 	s.cfg = config.NewDefaultConfig(s.db)
 	out("BEGIN")
 	defer func() {
@@ -514,6 +514,7 @@ func runC20(c *Case, out func(string)) {
 				out("P err:" + strings.ReplaceAll(err.Error(), " ", "_"))
 			} else {
 				s.written[string(k)] = string(v)
+				s.writtenWAL[string(k)] = s.eng.VerifConfig().WALDir
 			}
 		case "get":
 			if s.eng == nil {
@@ -524,13 +525,16 @@ func runC20(c *Case, out func(string)) {
 			v, err := s.eng.Get(k)
 			out("G " + renderGet(v, err))
 			if want, ok := s.written[string(k)]; ok {
-				if err != nil || string(v) != want {
-					class := ""
-					if s.defaultsUsed {
-						class = "manifest_missing_defaults_over_data"
-					}
-					s.fail(class, fmt.Sprintf("key %s written before the reopen is not readable after it (%s)", render(k), renderGet(v, err)))
+				sameWAL := s.writtenWAL[string(k)] == s.eng.VerifConfig().WALDir
+				switch {
+				case sameWAL && (err != nil || string(v) != want):
+					s.fail("", fmt.Sprintf("key %s written before the reopen is not readable after it (%s)", render(k), renderGet(v, err)))
+				case !sameWAL && !s.tampered:
+					s.fail("", fmt.Sprintf("the database was reopened with another WAL directory than the one key %s was written under, without any tampering", render(k)))
 				}
+				// !sameWAL after tampering: a bit flip or a hand-written manifest turned the stored
+				// configuration into another VALID one (the manifest carries no checksum); that is
+				// outside the property's quantifier (truncations), so no verdict on the data
 			}
 		case "close":
 			if s.eng != nil {
